@@ -183,11 +183,14 @@ PROPS = {
                 "over <=7 facts incl. duplicated premises and circular support; non-trivial = at least one logical fact (label not 'trivial'); "
                 "labels cascadeN = retractions that removed more than the target",
         "level_text": "Proved for every justification graph and recursion depth: the cascade never takes a fact with an explicit justification, explicit "
-                "facts change liveness only by their own retraction, only retractions remove facts. The full statement (present iff supported; a retraction "
-                "removes exactly the least set closed under loss of support) is the Coq-defined executable specification Tms.ok (least fixpoint "
-                "by iteration), evaluated on every observation of the real IncrementalEngine and compared per op with the faithful model of tms.rs.",
+                "facts change liveness only by their own retraction, only retractions remove facts. The full statement is a theorem (Proofs/TmsSupportProofs.v, invariant Good "
+                "kept by every operation): after ANY well-formed history of any length, a fact that was issued and not itself retracted is present exactly when one of its justifications is explicit or has all "
+                "its premises present; retracted targets stay absent; one retraction removes its target and exactly the facts it leaves unsupported (the cascade's final retracted set is closed under loss of "
+                "support: Post / Post_stable / Post_trans); explicit facts are present unless retracted; the cascade's recursion bound is never reached (measure: conclusions not yet retracted), so the model's "
+                "retraction IS the code's unbounded recursion. The Coq-defined executable specification Tms.ok (least fixpoint by iteration) is still evaluated on every observation of the real IncrementalEngine, "
+                "and the faithful model of tms.rs is compared with the code per op.",
         "level_note": "Trusted: Coq kernel; model of tms.rs/propagation.rs/working_memory.rs (index maps abstracted to one justification list); harness; extraction. "
-                "The equality 'faithful cascade = least fixpoint' is currently checked by the monitor on all generated histories (exhaustive small scope), not yet a theorem. Axioms: none.",
+                "The theorem is about the faithful model (handles never reused, one justification list); that the model is the code is the correspondence check. Axioms: none.",
         "trusted_base": [],
         "assumptions": ["premises are live when a justification is recorded and extra justifications go to present logical facts (the property's quantifier); other histories are compared model-vs-code only"],
     },
